@@ -1,7 +1,8 @@
 """C15 -- FFTW adaptor.  Proof: coq/Properties/Properties_C15.v (plan index set == view index set split by
-the mask, output frame, call shape; DFT value / input preservation / forward-backward relative to the FFTW
-contract).  Tie: h_fftw_c15 (+ interposed fftw_plan_guru64_dft / fftw_execute_dft / fftw_destroy_plan) vs
-the extracted model, and direct monitors against an O(N^2) long-double DFT."""
+the mask, output frame, call shape, pointers = first elements for any index base, planner flags for every size;
+DFT value / input preservation / forward-backward relative to the FFTW contracts for executing AND for creating
+a plan).  Tie: h_fftw_c15 (+ interposed fftw_plan_guru64_dft / fftw_execute_dft / fftw_destroy_plan, the arrays
+compared across the planning call) vs the extracted model, and direct monitors against an O(N^2) long-double DFT."""
 import glob
 import hashlib
 import json
@@ -28,12 +29,13 @@ def ensure_driver():
     return core.ensure_driver_for("c15", "ExtractC15.v", ["c15_zu.ml", "c15_driver.ml"], DRIVER, model_base="modelc15")
 
 
-def generate(seed, pairs, empty_pairs, maxd=4, prefix="c", lazy_pairs=0):
+def generate(seed, pairs, empty_pairs, maxd=4, prefix="c", lazy_pairs=0, large_a=0, large_b=0):
     d = workdir()
     tag = "%s_%d" % (prefix, os.getpid())       # concurrent checks do not share scratch files
     prog, obs = os.path.join(d, "prog_%s.txt" % tag), os.path.join(d, "obs_%s.txt" % tag)
     rc, out, err = core.sh([os.path.join(core.BIN, DRIVER), "gen", "--seed", str(seed), "--pairs", str(pairs),
-                            "--empty-pairs", str(empty_pairs), "--lazy-pairs", str(lazy_pairs), "--maxd", str(maxd), "--prefix", prefix,
+                            "--empty-pairs", str(empty_pairs), "--lazy-pairs", str(lazy_pairs), "--large-a", str(large_a), "--large-b", str(large_b),
+                            "--maxd", str(maxd), "--prefix", prefix,
                             "--prog", prog, "--obs", obs], timeout=900)
     if rc != 0:
         raise RuntimeError("driver_c15 gen failed: " + err[-2000:])
@@ -73,7 +75,7 @@ def strip_info(impl_text):
     return "".join(l + "\n" for l in impl_text.splitlines() if not l.startswith("I "))
 
 
-M_RE = re.compile(r"^M (\S+) dft=(\d) input=(\d) frame=(\d) guards=(\d) fb=(\d)$")
+M_RE = re.compile(r"^M (\S+) dft=(\d) input=(\d) frame=(\d) guards=(\d) fb=(\d) planflags=(\d) planpure=(\d)$")
 
 
 def monitors(impl_text):
@@ -84,7 +86,8 @@ def monitors(impl_text):
         if not m:
             continue
         names = ["result-differs-from-direct-dft", "input-modified", "wrote-outside-output-view", "guard-cells-modified",
-                 "forward-backward-not-N-times-identity"]
+                 "forward-backward-not-N-times-identity", "planner-flags-do-not-protect-the-arrays-or-the-input",
+                 "arrays-modified-by-the-planning-call"]
         for name, v in zip(names, m.groups()[1:]):
             if v != "1":
                 bad.append((m.group(1), name, line))
@@ -169,6 +172,8 @@ def shrink(exe, block, kind=None):
                     if b == "1":
                         nb = bits[:j] + ["0"] + bits[j + 1:]
                         cands.append(lines[:k] + ["which " + " ".join(nb)] + lines[k + 1:])
+            if l.startswith("inbase ") or l.startswith("outbase "):
+                cands.append(lines[:k] + lines[k + 1:])
             if l.startswith("api ") and l != "api dft":
                 cands.append(lines[:k] + ["api dft"] + lines[k + 1:])
             if l == "sign 1":
@@ -220,7 +225,8 @@ def report(res, exe, blocks, failing, known, max_report=4):
             "property": PID, "tier": res.tier, "seed": res.seed, "found-by": r[0],
             "model-said": r[1], "implementation-said": r[2],
             "note": "model = the adaptor's plan builder as proved in Properties_C15.v; M lines are direct monitors "
-                    "(O(N^2) long-double DFT, input copy, frame, guards, forward-backward); "
+                    "(O(N^2) long-double DFT, input copy, frame, guards, forward-backward, planner flags by FFTW's documented "
+                    "contract, arrays unchanged across the planning call); "
                     "replay: ./check C15 --replay <this file>"})
         res.violation(path, "%s: model %r impl %r" % (r[0], r[1], r[2]))
     return len(failing)
@@ -312,11 +318,12 @@ def run(tier, seed, replay=None):
         obss.append(model_run(block))
     n_corpus = sum(len(core.split_cases(p)) for p in progs)
     lazies = 12 if tier == "quick" else 120
-    p, o, dist = generate(seed, pairs, empties, lazy_pairs=lazies)
+    large_a, large_b = (4, 3) if tier == "quick" else (16, 8)
+    p, o, dist = generate(seed, pairs, empties, lazy_pairs=lazies, large_a=large_a, large_b=large_b)
     progs.append(p)
     obss.append(o)
     prog_text, obs_text = "".join(progs), "".join(obss)
-    impl_text, crashes = core.run_harness(exe, prog_text, timeout=(40 if tier == "quick" else 300))
+    impl_text, crashes = core.run_harness(exe, prog_text, timeout=(90 if tier == "quick" else 600))
     failing, known = classify(obs_text, impl_text, crashes)
     blocks = dict(core.split_cases(prog_text))
     n_failing = report(res, exe, blocks, failing, known)
@@ -359,18 +366,44 @@ def run(tier, seed, replay=None):
             break
     n_empty = sum(1 for ls in by_obs.values() if is_empty_case(ls))
     n_lazy = sum(1 for _c, b in cases if "api fftrange" in b)
+    # measured on the implementation's side: size classes and index bases of the cases that actually ran
+    size_classes = {"<=2^16": 0, "(2^16,2^20]": 0, ">2^20": 0}
+    largest = 0
+    for l in impl_text.splitlines():
+        if l.startswith("I "):
+            m = re.search(r" N=(\d+) ", l)
+            if m:
+                n = int(m.group(1))
+                largest = max(largest, n)
+                size_classes["<=2^16" if n <= 65536 else ("(2^16,2^20]" if n <= 1048576 else ">2^20")] += 1
+    n_based = 0
+    for l in impl_text.splitlines():
+        if l.startswith("V "):
+            firsts = re.findall(r" first=(\S+)", l)
+            if any(f not in ("0", "*") for fs in firsts for f in fs.split(",")):
+                n_based += 1
+    n_plan_calls = sum(1 for l in impl_text.splitlines() if l.startswith("G "))
     res.coverage.update({
         "evaluations": len(cases),
         "distinct_nontrivial": nontrivial_distinct(prog_text, obs_text),
         "rule": "layout pairs: D in 1..4 (weights 12/30/36/22), common view extents from {1..6} (weights 24/20/18/13/13/12, "
                 "product <= 450); each side = a root array (60%%: padded sub-block with 0..2 extra cells before/after in every "
                 "dimension, 20%% of those dimensions strided by 2 or 3) followed by 0..3 of rotated/unrotated/transposed/reversed; "
+                "50%% of the pairs use index bases other than 0: root arrays over extensions starting at -3..5 (60%% of the "
+                "dimensions), sub-blocks taken with blocked(a,b) (35%%), reindexed(i) among the permuting operations, and a final "
+                "reindexed(i,j,..) that gives both views the same first indices (the input's, the output's or fresh ones); "
                 "output separate (62%%), the same view = in place (22%%), or a disjoint view of the same root (16%%); for every pair "
                 "ALL 2^D masks, each with a random sign and front end (dft, dft 4-arg, dft_forward/dft_backward, plan::forward/"
                 "backward + execute, fft::dft_forward/backward; in place: dft(which,v,dir), dft(which,v,v,dir), "
-                "dft_backward(which,v)); plus %d pairs with one extent 0 and %d pairs (D = 2, 3; plain arrays, permuted arrays, "
-                "padded sub-blocks) through the lazy range form out = fft::dft(which, in, dir).  A case is non-trivial when the plan has a transform "
-                "dimension of extent >= 2; distinct = by hash of the case text without its id." % (empties, lazies),
+                "dft_backward(which,v)); plus %d pairs with one extent 0, %d pairs (D = 2, 3; plain arrays, permuted arrays, "
+                "padded sub-blocks, half with index bases) through the lazy range form out = fft::dft(which, in, dir), %d pairs with "
+                "more than 2^16 elements (shapes n, kxn, ~257x256, 2x~182x~181) and %d pairs with more than 2^20 elements (shapes n, "
+                "kxn, ~1025x1024, 2x2xn), contiguous or permuted roots, half with index bases, in place and out of place, all masks, "
+                "all front ends.  A case is non-trivial when the plan has a transform dimension of extent >= 2; distinct = by hash of "
+                "the case text without its id.  Every case compares V (sizes, strides, base, first indices), G (the interposed "
+                "fftw_plan_guru64_dft arguments incl. both pointers and the semantic planner flags), X (call order, both "
+                "fftw_execute_dft pointers), W (changed cells; a digest above 20000 elements) and the M monitors."
+                % (empties, lazies, large_a, large_b),
         "samples": samples,
         "generator_distribution": dist,
         "observation_lines_compared": sum(1 for l in obs_text.splitlines() if l[:2] in ("V ", "G ", "X ", "W ", "M ")),
@@ -379,20 +412,36 @@ def run(tier, seed, replay=None):
         "disagreeing_cases": n_failing,
         "cases_with_an_empty_view": n_empty,
         "lazy_range_cases": n_lazy,
-        "monitors": ["result vs O(N^2) long-double direct DFT within 64 eps (1+log2 Nt) sqrt(Nt) max|x|",
+        "cases_with_a_nonzero_index_base": n_based,
+        "cases_by_number_of_elements": size_classes,
+        "largest_transform_elements": largest,
+        "planning_calls_with_flags_and_pointers_compared": n_plan_calls,
+        "monitors": ["result vs O(N^2) long-double direct DFT within 64 eps (1+log2 Nt) sqrt(Nt) max|x| (every output element "
+                     "when N*Nt <= 2e7, else the first, the last and 62 hashed output elements)",
                      "input root bitwise unchanged (out-of-place)", "output root unchanged outside the output view",
-                     "16 guard cells on both sides of both buffers", "forward then backward == Nt * x"],
+                     "16 guard cells on both sides of both buffers", "forward then backward == Nt * x (every element)",
+                     "planner flags of every planning call: FFTW_ESTIMATE or FFTW_WISDOM_ONLY present (FFTW's documented "
+                     "condition for planning not to write to the arrays), not wisdom-only, FFTW_PRESERVE_INPUT present -- "
+                     "judged on the flag word alone, for every size",
+                     "both buffers bitwise identical before and after every (interposed) planning call"],
         "not_exercised": ["in/out views that overlap with different layouts (FFTW's in-place transposes): outside the theorem's domain",
+                          "in/out views of equal sizes but different first indices (the adaptor asserts equal extensions)",
                           "extent-0 arrays with a null base pointer; explicit plan objects over an empty transformed dimension "
                           "(NULL plan: the asserted precondition of that interface, C20)",
                           "fftw::copy / fftw::transpose (declared, but fftw::copy does not exist at the pinned commit: uninstantiable)",
                           "fft::dft lazy range for D = 1 (does not compile at the pinned commit) and D = 4",
-                          "index bases other than 0 (C19)", "threads, MPI (fftw/mpi.hpp), cufft/hipfft"],
+                          "transforms with more than ~1.6e6 elements; single dimensions longer than ~1.05e6; strides that are not "
+                          "reachable from contiguous roots of that size",
+                          "above 20000 elements the W line is a digest; above 300000 elements (or a dimension > 2000) the model's "
+                          "side of it is computed by a native loop over the extracted plan's tensors, not by the extracted "
+                          "plan_out_addresses",
+                          "threads, MPI (fftw/mpi.hpp), cufft/hipfft"],
     })
     res.coverage.update(extra)
     res.assumptions = ["FFTW 3.3.10 as installed does what its manual says on its documented domain (guru_contract) -- "
                        "sampled by the O(N^2) monitor, not proved",
+                       "creating a plan with FFTW_ESTIMATE does not write to the arrays (plan_contract, FFTW manual 4.3.2) -- "
+                       "observed on every planning call by the interposer, not proved",
                        "DFT inversion for exp(2 pi i k/n) (tw_orthogonal) for the forward-backward theorem",
-                       "no 64-bit overflow in index arithmetic", "g++ 12 / libstdc++ as installed",
-                       "views are zero-based (index bases are C19's subject)"]
+                       "no 64-bit overflow in index arithmetic", "g++ 12 / libstdc++ as installed"]
     return res.finish()
